@@ -44,6 +44,8 @@ type Exec struct {
 	privateRefs []string // refs of non-escaping stack allocations made so far
 	outsideRefs []string // refs of specification-level method results (never private stack objects)
 	recTypes    map[string]types.Type // results recorded by "option records <name>"
+	curCallArgs  []ssa.Value // SSA arguments of the call whose contract is being applied
+	curCallFrame *Frame
 	typedHavocs []*thEvent
 	thDone      map[string]bool
 	loadOwner   string
